@@ -100,7 +100,7 @@ type c30obs struct {
 	incon bool
 }
 
-func runPub(c config, dir, tag, name string) string {
+func runPub(c config, dir, tag, name, client string) string {
 	g, err := newSNGateway()
 	if err != nil {
 		return "inconclusive: " + err.Error()
@@ -110,7 +110,7 @@ func runPub(c config, dir, tag, name string) string {
 	if err != nil {
 		return "inconclusive: " + err.Error()
 	}
-	args = append([]string{"--host", "127.0.0.1", "--port", fmt.Sprint(g.port()), "--client-id", "c1", "-t", name, "-m", "x"}, args...)
+	args = append([]string{"--host", "127.0.0.1", "--port", fmt.Sprint(g.port()), "--client-id", client, "-t", name, "-m", "x"}, args...)
 	p, err := start("bisquitt-pub", args, env)
 	if err != nil {
 		return "inconclusive: " + err.Error()
@@ -142,7 +142,7 @@ func runPub(c config, dir, tag, name string) string {
 	return "inconclusive: deadline"
 }
 
-func runSub(c config, dir, tag string) map[string]string {
+func runSub(c config, dir, tag, client string) map[string]string {
 	out := map[string]string{}
 	fail := func(s string) map[string]string {
 		for _, n := range c30names {
@@ -159,7 +159,7 @@ func runSub(c config, dir, tag string) map[string]string {
 	if err != nil {
 		return fail("inconclusive: " + err.Error())
 	}
-	args = append([]string{"--host", "127.0.0.1", "--port", fmt.Sprint(g.port()), "--client-id", "c1", "-t", c30names[0], "-t", c30names[1]}, args...)
+	args = append([]string{"--host", "127.0.0.1", "--port", fmt.Sprint(g.port()), "--client-id", client, "-t", c30names[0], "-t", c30names[1]}, args...)
 	p, err := start("bisquitt-sub", args, env)
 	if err != nil {
 		return fail("inconclusive: " + err.Error())
@@ -227,8 +227,12 @@ func snExchange(conn *net.UDPConn, send []byte, repeat bool, done <-chan struct{
 	end := time.Now().Add(deadline)
 	buf := make([]byte, 9000)
 	conn.Write(send)
-	for time.Now().Before(end) {
-		conn.SetReadDeadline(time.Now().Add(200 * time.Millisecond))
+	for try := 0; time.Now().Before(end); try++ {
+		wait := 200 * time.Millisecond
+		if repeat && try < 40 {
+			wait = 15 * time.Millisecond // the gateway is probably still starting: ask again soon
+		}
+		conn.SetReadDeadline(time.Now().Add(wait))
 		n, err := conn.Read(buf)
 		if err != nil {
 			select {
@@ -251,10 +255,10 @@ func snExchange(conn *net.UDPConn, send []byte, repeat bool, done <-chan struct{
 
 // runGateway retries when the gateway could not bind its port (somebody else took it between the harness's
 // test and the gateway's bind): that is the harness's business, not the tool's.
-func runGateway(c config, dir, tag string) map[int]string {
+func runGateway(c config, dir, tag, client string) map[int]string {
 	var out map[int]string
 	for try := 0; try < 4; try++ {
-		out = runGatewayOnce(c, dir, tag)
+		out = runGatewayOnce(c, dir, tag, client)
 		if !strings.Contains(out[1]+out[2], "address already in use") {
 			return out
 		}
@@ -267,7 +271,7 @@ func runGateway(c config, dir, tag string) map[int]string {
 	return out
 }
 
-func runGatewayOnce(c config, dir, tag string) map[int]string {
+func runGatewayOnce(c config, dir, tag, client string) map[int]string {
 	out := map[int]string{}
 	fail := func(s string) map[int]string {
 		out[1], out[2] = s, s
@@ -295,7 +299,7 @@ func runGatewayOnce(c config, dir, tag string) map[int]string {
 			out[id] = "inconclusive: " + err.Error()
 			continue
 		}
-		connect := refsn.Pkt{Type: refsn.CONNECT, Clean: true, HasFlags: true, ProtoID: 1, Duration: 60, Data: []byte("c1")}.Encode()
+		connect := refsn.Pkt{Type: refsn.CONNECT, Clean: true, HasFlags: true, ProtoID: 1, Duration: 60, Data: []byte(client)}.Encode()
 		if _, why := snExchange(conn, connect, true, p.done, func(r refsn.Pkt) bool { return r.Type == refsn.CONNACK }); why != "" {
 			conn.Close()
 			if why == "exited" {
@@ -337,7 +341,8 @@ func TestC30(t *testing.T) {
 	defer os.RemoveAll(binDir)
 	dir, _ := os.MkdirTemp(os.Getenv("VERIF_SCRATCH"), "c30")
 	defer os.RemoveAll(dir)
-	cfgs := c30configs(explore.Tier() == "thorough")
+	thoroughTier := explore.Tier() == "thorough"
+	cfgs := c30configs(thoroughTier)
 	type result struct {
 		c     config
 		runs  int
@@ -360,9 +365,9 @@ func TestC30(t *testing.T) {
 			add := func(sig, f string, a ...any) {
 				r.viols = append(r.viols, explore.Violation{Property: "C30", Sig: sig, Detail: c.String() + ": " + fmt.Sprintf(f, a...)})
 			}
-			judgeName := func(tool, name, got string) {
+			judgeName := func(tool, client, name, got string) {
 				r.runs++
-				ids := refIDs(ref, "c1", name)
+				ids := refIDs(ref, client, name)
 				switch {
 				case strings.HasPrefix(got, "inconclusive"):
 					r.incon++
@@ -371,40 +376,50 @@ func TestC30(t *testing.T) {
 				case len(ids) > 0:
 					var id int
 					if n, _ := fmt.Sscanf(got, "predef:%d", &id); n != 1 || !ids[id] {
-						add(tool+":name-not-translated-by-the-configured-mapping", "%s for topic %q used %q; by the file and the options the name is predefined id %v for client c1", tool, name, got, keys(ids))
+						add(tool+":name-not-translated-by-the-configured-mapping", "%s for topic %q used %q; by the file and the options the name is predefined id %v for client %s", tool, name, got, keys(ids), client)
 					}
 				default:
 					if got != "register:"+name {
-						add(tool+":name-translated-although-not-predefined", "%s for topic %q used %q; by the file and the options the name is not predefined for client c1", tool, name, got)
+						add(tool+":name-translated-although-not-predefined", "%s for topic %q used %q; by the file and the options the name is not predefined for client %s", tool, name, got, client)
 					}
 				}
 			}
 			var log []string
-			for _, name := range c30names {
-				got := runPub(c, dir, tag+"p", name)
-				judgeName("bisquitt-pub", name, got)
-				log = append(log, "pub "+name+"->"+got)
+			clients := []string{"c1"}
+			if thoroughTier || i%3 == 0 {
+				clients = append(clients, "c2") // a client without entries of its own: only the "*" entries apply
 			}
-			sub := runSub(c, dir, tag+"s")
-			for _, name := range c30names {
-				judgeName("bisquitt-sub", name, sub[name])
-				log = append(log, "sub "+name+"->"+sub[name])
-			}
-			gwm := runGateway(c, dir, tag+"g")
-			for _, id := range []int{1, 2} {
-				r.runs++
-				got := gwm[id]
-				want, ok := refName(ref, "c1", id)
-				log = append(log, fmt.Sprintf("gw %d->%s", id, got))
-				switch {
-				case strings.HasPrefix(got, "inconclusive"):
-					r.incon++
-				case strings.HasPrefix(got, "exit:"):
-					add("bisquitt:rejects-valid-configuration", "bisquitt does not start: %s", got)
-				case ok && got != "filter:"+want:
-					add("bisquitt:id-not-resolved-by-the-configured-mapping", "bisquitt resolved predefined id %d for client c1 as %q; by the file and the options it is %q", id, got, want)
-				case !ok && got != "refused":
-					add("bisquitt:id-resolved-although-not-predefined", "bisquitt answered a SUBSCRIBE to predefined id %d with %q; by the file and the options the id denotes nothing for client c1", id, got)
+			for _, client := range clients {
+				names := c30names
+				if client != "c1" {
+					names = c30names[:1]
+				}
+				for _, name := range names {
+					got := runPub(c, dir, tag+"p"+client, name, client)
+					judgeName("bisquitt-pub", client, name, got)
+					log = append(log, "pub "+client+" "+name+"->"+got)
+				}
+				sub := runSub(c, dir, tag+"s"+client, client)
+				for _, name := range c30names {
+					judgeName("bisquitt-sub", client, name, sub[name])
+					log = append(log, "sub "+client+" "+name+"->"+sub[name])
+				}
+				gwm := runGateway(c, dir, tag+"g"+client, client)
+				for _, id := range []int{1, 2} {
+					r.runs++
+					got := gwm[id]
+					want, ok := refName(ref, client, id)
+					log = append(log, fmt.Sprintf("gw %s %d->%s", client, id, got))
+					switch {
+					case strings.HasPrefix(got, "inconclusive"):
+						r.incon++
+					case strings.HasPrefix(got, "exit:"):
+						add("bisquitt:rejects-valid-configuration", "bisquitt does not start: %s", got)
+					case ok && got != "filter:"+want:
+						add("bisquitt:id-not-resolved-by-the-configured-mapping", "bisquitt resolved predefined id %d for client %s as %q; by the file and the options it is %q", id, client, got, want)
+					case !ok && got != "refused":
+						add("bisquitt:id-resolved-although-not-predefined", "bisquitt answered a SUBSCRIBE to predefined id %d with %q; by the file and the options the id denotes nothing for client %s", id, got, client)
+					}
 				}
 			}
 			r.out = strings.Join(log, "; ")
@@ -436,8 +451,8 @@ func TestC30(t *testing.T) {
 	rep.Coverage["inconclusive"] = incon
 	rep.Coverage["exhaustive"] = incon == 0
 	rep.Coverage["samples"] = samples
-	rep.Coverage["rule"] = "the three binaries built from the current tree; configurations = predefined-topics YAML files over clients {c1,*} x ids {1,2} x names {t/1,t/2} (quick: at most 2 entries, thorough: at most 3, and no file) x --predefined-topic lists of length 0..2 over {t/1;1, t/2;1, c1;t/1;2, c1;t/2;1} in both orders, given as flags or as environment variables; per configuration: bisquitt-pub -t <name> for both names (PUBLISH predefined id vs REGISTER on the wire), bisquitt-sub -t t/1 -t t/2 (SUBSCRIBE predefined id vs name), bisquitt with a harness client subscribing to predefined ids 1 and 2 (filter seen by the harness broker vs refusal); reference = file, overridden entry by entry by the options in order, two-field options under \"*\", client entry before \"*\". distinct_nontrivial = distinct observation vectors; evaluations = tool probes"
-	rep.Assumptions = []string{"loopback peers answer at once; no timing is judged; a probe that meets the 10 s harness deadline is counted as inconclusive", "client id c1 only"}
+	rep.Coverage["rule"] = "the three binaries built from the current tree; configurations = predefined-topics YAML files over clients {c1,*} x ids {1,2} x names {t/1,t/2} (quick: at most 2 entries, thorough: at most 3, and no file) x --predefined-topic lists of length 0..2 over {t/1;1, t/2;1, c1;t/1;2, c1;t/2;1} in both orders, given as flags or as environment variables; per configuration and client id (c1; c2 = a client without entries of its own): bisquitt-pub -t <name> (PUBLISH predefined id vs REGISTER on the wire), bisquitt-sub -t t/1 -t t/2 (SUBSCRIBE predefined id vs name), bisquitt with a harness client subscribing to predefined ids 1 and 2 (filter seen by the harness broker vs refusal); reference = file, overridden entry by entry by the options in order, two-field options under \"*\", client entry before \"*\". distinct_nontrivial = distinct observation vectors; evaluations = tool probes"
+	rep.Assumptions = []string{"loopback peers answer at once; no timing is judged; a probe that meets the 10 s harness deadline is counted as inconclusive", "client ids c1 and (every third configuration in the quick tier) c2, a client that only the * entries apply to"}
 	rep.Finish()
 }
 
